@@ -122,3 +122,22 @@ package parse
 //@   props C07
 //@   requires val.Kind == 'w' || val.Kind == 'q' || val.Kind == 'r'
 //@   ensures f != nil
+
+//@ func isSpace(q string) (n int)
+//@   props C07
+//@   requires len(q) > 0
+//@   ensures 0 <= n <= len(q) && n <= 4
+//@   ensures q[0] == ' ' ==> n == 1
+
+//@ func (t *tokenizer) tok(kind byte, token string, rest string) (k tok, n tokenizer)
+//@   props C07
+//@   requires t != nil && tokOK(deref(t))
+//@   ensures k.Kind == kind && k.Tok == token && k.Off == len(t.errt.qOrig) - len(t.q) && k.Regexp == nil && n.q == rest && n.errt == t.errt
+
+// end: anything left over is a recorded error (positioned inside the text).
+//@ func (t *tokenizer) end() (n tokenizer)
+//@   props C07
+//@   requires t != nil && tokOK(deref(t)) && errOff(t.errt)
+//@   modifies t, t.errt
+//@   ensures n.errt == old(t.errt) && errOff(n.errt) && n.errt.qOrig == old(t.errt.qOrig)
+//@   ensures old(t.errt.err) != nil ==> n.errt.err == old(t.errt.err)
